@@ -176,6 +176,14 @@ void snoopy_configuration_preinit_setConfigFilePathFromEnv ()
  */
 void snoopy_configuration_ctor ()
 {
+    /*
+     * Never build on what an earlier call has left behind. Normally snoopy_configuration_dtor() has
+     * run at the end of that call, but a call can be abandoned half way (made by a vfork() child - which
+     * shares our memory - that got killed inside, or left with a longjmp() from a signal handler of the
+     * calling program): release and reset whatever is still there.
+     */
+    snoopy_configuration_dtor();
+
 #ifdef SNOOPY_CONFIGFILE_ENABLED
     /* Is config file parsing disabled at runtime? */
     if (SNOOPY_FALSE == snoopy_configuration_configFileParsingEnabled) {
